@@ -13,13 +13,13 @@ def compile_driver(src, name, extra_includes=(), flags=('-O1', ), deps=()):
     """g++ -std=c++17 with the mock headers and /repo (matlab.h) on the include path; cached by content hash"""
     os.makedirs(OUT, exist_ok=True)
     h = hashlib.sha256()
-    for f in [src, '/repo/matlab.h', os.path.join(CXX, 'mock', 'mex.h'), os.path.join(CXX, 'mock', 'mex_impl.h')] + list(deps):
+    for f in [src, common.REPO + '/matlab.h', os.path.join(CXX, 'mock', 'mex.h'), os.path.join(CXX, 'mock', 'mex_impl.h')] + list(deps):
         h.update(open(f, 'rb').read())
     h.update(repr(flags).encode())
     exe = os.path.join(OUT, '%s-%s' % (name, h.hexdigest()[:16]))
     if os.path.exists(exe):
         return exe, ''
-    cmd = ['g++', '-std=c++17'] + list(flags) + ['-I', os.path.join(CXX, 'mock'), '-I', '/repo']
+    cmd = ['g++', '-std=c++17'] + list(flags) + ['-I', os.path.join(CXX, 'mock'), '-I', common.REPO]
     for i in extra_includes:
         cmd += ['-I', i]
     cmd += ['-o', exe + '.tmp', src]
